@@ -171,8 +171,9 @@ type whist struct {
 	Commits []*wcommit
 	recs    []*commitRec
 	Tips    map[string]int
-	Tags    map[string]int // tag name -> commit
-	Kinds   map[string]int // what the generator did (for evidence)
+	Tags    map[string]int    // tag name -> commit
+	Kinds   map[string]int    // what the generator did (for evidence)
+	Dirty   map[string]*world // branch -> model of its working set after the script (uncommitted edits when whistOpts.Dirty)
 }
 
 type whistOpts struct {
@@ -181,6 +182,7 @@ type whistOpts struct {
 	Indexes, Defaults      bool
 	Hostile                bool
 	Tags                   bool
+	Dirty                  bool // leave uncommitted row edits in the working set of every branch
 }
 
 func genWHist(r *rand.Rand, db string, o whistOpts) *whist {
@@ -411,6 +413,26 @@ func genWHist(r *rand.Rand, db string, o whistOpts) *whist {
 		}
 		commit(cw, on, h.Tips[on])
 	}
+	h.Dirty = map[string]*world{}
+	for _, br := range []string{"main", "br"} {
+		if _, ok := h.Tips[br]; !ok {
+			continue
+		}
+		dw := work[br]
+		if dw == nil {
+			dw = h.Commits[h.Tips[br]].W.clone()
+		}
+		if ed := editable(dw); o.Dirty && len(ed) > 0 {
+			if on != br {
+				add(fmt.Sprintf("call dolt_checkout('%s')", br))
+				on = br
+			}
+			for k := 1 + r.Intn(2); k > 0; k-- {
+				add(g.dml(dw.S[ed[r.Intn(len(ed))]], pool))
+			}
+		}
+		h.Dirty[br] = dw
+	}
 	if on != "main" {
 		add("call dolt_checkout('main')")
 	}
@@ -580,7 +602,7 @@ func c32(c *rig.Ctx) {
 		"only MAY or MAY NOT be listed by the diff (storage rewrite is not visible in the model); PK-changing pairs assert only the warning and the absence of data statements")
 	srv, stop := startServer(c, "c32")
 	defer stop()
-	nh := c.Pick(40, 1500)
+	nh := c.Pick(40, 500)
 	st := newTally()
 	runParallel(nh, 4, func(i int) {
 		if st.get("c32.unclassified_violations") > 12 {
@@ -589,6 +611,9 @@ func c32(c *rig.Ctx) {
 		r := c.SubRand("c32", i)
 		h := genWHist(r, fmt.Sprintf("c32_%d", i), whistOpts{MinCommits: 3, MaxCommits: 6, PKChange: true, Indexes: true, Defaults: true, Hostile: true})
 		c.Case(fmt.Sprintf("c32/%d", i), map[string]any{"db": h.DB, "script": sqls(h.Steps)})
+		if i < 3 {
+			c.Sample(map[string]any{"script": sqls(h.Steps), "checked": "all ordered pairs of its commits"})
+		}
 		runC32(c, srv, h, st)
 	})
 	st.flush(c)
